@@ -225,7 +225,9 @@ def oracle(ctx, kind, p):
             texts_ = [penman.format(t, indent=rng.choice([None, -1, 2])) for t in trees]
             # hand-written comment lines (not produced by the library's formatter): an empty key with a
             # value, two keys on one line
-            texts_ = [(rng.choice(['# :: remark 3\n', '# ::a 1 ::b 2\n', '# ::k\n']) if rng.random() < 0.2 else '') + x
+            texts_ = [(rng.choice(['# :: remark 3\n', '# ::a 1 ::b 2\n', '# ::k\n']
+                                  + ([] if o['check'] else ['# ::error-1 written by hand\n', '# ::error-12 (a :b c) kept\n']))
+                       if rng.random() < 0.2 else '') + x
                       for x in texts_]
             if messy:
                 import re as _re
